@@ -26,15 +26,19 @@ def _load_manifest_levels():
         pass
 
 
+SPLIT_AT = 16
+BUDGET = 24
+
+
 def _worker(job):
-    prop, idx, tier, timeout_ms = job
+    prop, idx, tier, timeout_ms, prefixes = job
     from pyvc import smt, verify
 
     try:
         mod = importlib.import_module(f"contracts.{prop.lower()}")
         verify.KNOWN = _known()
         unit = mod.units(tier)[idx]
-        ur = verify.run_unit(unit, timeout_ms=timeout_ms)
+        ur = verify.run_unit(unit, timeout_ms=timeout_ms, prefixes=prefixes, split_at=SPLIT_AT if prefixes is None else 0, budget=0 if prefixes is None else BUDGET)
         res = []
         for r in ur.results:
             res.append(dict(name=r.name, status=r.status, backend=r.backend, time_s=round(r.time_s, 4), detail=r.detail[:800],
@@ -42,11 +46,11 @@ def _worker(job):
         return dict(unit=unit.name, func=unit.func, paths=ur.paths, results=res, unsupported=ur.unsupported, error=ur.error,
                     assumptions=sorted(ur.assumptions), inlined=sorted(ur.inlined), wall_s=round(ur.wall_s, 3), samples=ur.samples,
                     src_hash=verify.get_index().source_hash(unit.func) if ":" in unit.func else "", smt=dict(smt.STATS),
-                    notes=unit.notes)
+                    notes=unit.notes, frontier=ur.frontier, idx=idx)
     except BaseException as e:  # noqa
         return dict(unit=f"{prop}#{idx}", func="", paths=0, results=[], unsupported=None,
                     error=f"{type(e).__name__}: {e}\n{traceback.format_exc(limit=10)}", assumptions=[], inlined=[], wall_s=0.0,
-                    samples=[], src_hash="", smt={}, notes="")
+                    samples=[], src_hash="", smt={}, notes="", frontier=[], idx=idx)
 
 
 def _known():
@@ -66,11 +70,29 @@ def run_property(prop: str, tier: str) -> int:
         os.environ["PYVC_BOTH_BACKENDS"] = "1"
     mod = importlib.import_module(f"contracts.{prop.lower()}")
     units = mod.units(tier)
-    jobs = [(prop, i, tier, timeout_ms) for i in range(len(units))]
+    jobs = [(prop, i, tier, timeout_ms, None) for i in range(len(units))]
     ctx = mp.get_context("fork")
-    nproc = min(16, max(1, len(jobs)))
-    with ctx.Pool(nproc) as pool:
+    with ctx.Pool(16) as pool:
         outs = pool.map(_worker, jobs, chunksize=1)
+        # second phase: the unexplored frontiers of large units, spread over all cores
+        by_idx = {o["idx"]: o for o in outs}
+        jobs2 = [(prop, o["idx"], tier, timeout_ms, [p]) for o in outs for p in (o.get("frontier") or [])]
+        rounds = 0
+        while jobs2 and rounds < 200:
+            rounds += 1
+            outs2 = pool.map(_worker, jobs2, chunksize=1)
+            jobs2 = [(prop, o2["idx"], tier, timeout_ms, [p]) for o2 in outs2 for p in (o2.get("frontier") or [])]
+            for o2 in outs2:
+                o = by_idx[o2["idx"]]
+                o["results"] += o2["results"]
+                o["paths"] += o2["paths"]
+                o["wall_s"] = round(o["wall_s"] + o2["wall_s"], 3)
+                o["assumptions"] = sorted(set(o["assumptions"]) | set(o2["assumptions"]))
+                o["inlined"] = sorted(set(o["inlined"]) | set(o2["inlined"]))
+                o["error"] = o["error"] or o2["error"]
+                o["unsupported"] = o["unsupported"] or o2["unsupported"]
+                for kk, vv in (o2.get("smt") or {}).items():
+                    o["smt"][kk] = o["smt"].get(kk, 0) + vv
     extras = []
     if hasattr(mod, "extras"):
         try:
